@@ -4,7 +4,7 @@ Correspondence, three routes:
   * hook level: calamine::verif_hooks::xlsx::replace_cell_names on rendered token lists
     (vh sharedfmla tok …) vs the extracted Coq model (vm sharedfmla tok …), which also returns
     the Coq spec (render of the translated tokens), the clipped form (references that would leave
-    the sheet stay), the known class, in_range and wf;
+    the sheet stay), in_range and wf;
   * raw text: arbitrary (not grammar-shaped) strings through rcn, plus the A1 helpers;
   * end to end: generated .xlsx files with column / row / block groups at random master
     positions, masters in arbitrary si order, read through Xlsx::worksheet_formula
@@ -13,8 +13,8 @@ Correspondence, three routes:
 The model is parameterised by the oracle is_alnum (Rust's char::is_alphanumeric): its values on
 the non-ASCII characters of the generators are asked from the harness once per run
 (`sharedfmla alnum`) and handed to the model side with every case.
-Verdicts: impl != model -> disagreement; impl != spec outside every known class -> violation;
-inside a known class -> known hit (only when the real code really deviates)."""
+Verdicts: impl != model -> disagreement; impl != spec on a well-formed, in-range case -> violation
+(no known class is left)."""
 import os, shutil
 import vlib
 import sharedfmlagen as G
@@ -26,8 +26,7 @@ ASSUMPTIONS = [
     "cells carry an explicit r attribute; the XML layer (quick-xml events, unescape) is exercised end to end but not modelled",
     "Col26.v / Col26_proofs.v are agent c14's (A1 text <-> coordinates)",
 ]
-CLASS_NAMES = {"8": "F22-whole-range", "9": "F22-sheet3d"}
-STREAMS = [None, None, None, None, None, None, None, "whole", "sheet3d", "illegal"]
+STREAMS = [None, None, None, None, None, None, "whole", "sheet3d", "illegal", "colon"]
 ORACLE = {"arg": "", "set": set()}
 
 def tmpdir(ctx):
@@ -91,10 +90,10 @@ def gen_offset(rng, ts, edge=False):
 def classify_tok(ctx, lid, line, ts, dr, dc, impl, model):
     """returns a dict describing the case: ok / known / violation / disagreement"""
     f = (model or "").split("|")
-    if impl is None or model is None or len(f) != 8:
+    if impl is None or model is None or len(f) != 6:
         ctx.disagreements.append({"function": "replace_cell_names", "case": line, "impl": impl, "model": model})
         return None
-    m_ans, m_spec, m_clip, known, known_at, inr, wf, rok = f
+    m_ans, m_spec, m_clip, inr, wf, rok = f
     my_spec = G.hx(G.render_all(G.translate(ts, dr, dc)))
     my_clip = G.hx(G.render_all(G.translate_clip(ts, dr, dc)))
     if rok != "1" or my_spec != m_spec or my_clip != m_clip or (inr == "1") != G.in_range(ts, dr, dc):
@@ -104,7 +103,7 @@ def classify_tok(ctx, lid, line, ts, dr, dc, impl, model):
     if impl != m_ans:
         # the tie is broken; still decide below whether the property itself fails on this input
         ctx.disagreements.append({"function": "replace_cell_names", "case": line, "impl": impl, "model": m_ans})
-    info = {"impl": impl, "expected": "ok:" + m_spec, "known": known_at, "inr": inr, "wf": wf, "cls": None}
+    info = {"impl": impl, "expected": "ok:" + m_spec, "inr": inr, "wf": wf, "cls": None}
     if wf != "1":
         ctx.count("tok:not-wf")
         return info
@@ -116,11 +115,6 @@ def classify_tok(ctx, lid, line, ts, dr, dc, impl, model):
         # error, an invalid name — on an offset between two cells of a sheet is reported
         if impl == "ok:" + m_clip:
             ctx.count("tok:edge-left-unchanged")
-        elif known_at == "9":
-            name = CLASS_NAMES[known_at]      # the first sheet name of a 3-D prefix moved, as inside the domain
-            ctx.known_hits.setdefault(name, line)
-            ctx.count("known:" + name)
-            info["cls"] = name
         elif sheet_off:
             ctx.violations.append({"case": line, "expected": "ok:" + m_clip, "actual": impl, "model": m_ans,
                                    "what": "replace_cell_names(%r, (%d,%d)): a reference that would leave the sheet must stay unchanged (%r)"
@@ -134,16 +128,10 @@ def classify_tok(ctx, lid, line, ts, dr, dc, impl, model):
         ctx.count("tok:translated-as-specified")
         return info
     # the real code deviates from the property on a grammatical, in-range formula
-    if known_at == "-":
-        ctx.violations.append({"case": line, "expected": info["expected"], "actual": impl, "model": m_ans,
-                               "what": "replace_cell_names(%r, (%d,%d)) differs from the translated formula %r"
-                                       % (G.render_all(ts), dr, dc, G.render_all(G.translate(ts, dr, dc)))})
-        info["cls"] = "violation"
-    else:
-        name = CLASS_NAMES.get(known_at, "F22-class" + known_at)
-        ctx.known_hits.setdefault(name, line)
-        ctx.count("known:" + name)
-        info["cls"] = name
+    ctx.violations.append({"case": line, "expected": info["expected"], "actual": impl, "model": m_ans,
+                           "what": "replace_cell_names(%r, (%d,%d)) differs from the translated formula %r"
+                                   % (G.render_all(ts), dr, dc, G.render_all(G.translate(ts, dr, dc)))})
+    info["cls"] = "violation"
     return info
 
 def tok_line(lid, ts, dr, dc):
@@ -193,7 +181,7 @@ def run_tok_batch(ctx, n, tag):
     for (lid, ts, dr, dc, stream), line in zip(cases, lines):
         info = classify_tok(ctx, lid, line, ts, dr, dc, impl.get(lid), model.get(lid))
         ctx.traces += 1
-        ctx.count("stream:%s" % (stream or "known-free"))
+        ctx.count("stream:%s" % (stream or "mix"))
         ctx.count("shape:%s" % ("vertical" if dc == 0 and dr != 0 else "horizontal" if dr == 0 and dc != 0
                                 else "none" if dr == 0 and dc == 0 else "diagonal"))
         features(ctx, ts)
@@ -227,10 +215,17 @@ def witness_cases():
         ([("S", 0, "Sheet1"), A1], 1048575, 16383), ([("N", "TRUE")], 1, 1), ([("E", 1), Y("+"), ("E", 6)], 1, 1),
         ([("E", 4), Y("+"), ("E", 0)], 1, 1),
         ([("M", "1", "5", (True, "3")), Y("*"), A1], 2, 2), ([("Q", 'A1 "x" B2'), Y("&"), A1], 2, 2),
-        # the remaining known classes
+        # the classes repaired last: whole ranges, 3-D prefix
         ([("F", "SUM"), ("C", 0, 0, 0, 0), Y(")")], 0, 1), ([("F", "SUM"), ("W", 0, 0, 0, 2), Y(")")], 2, 0),
         ([("F", "SUM"), ("C", 0, 0, 0, 0), Y(")")], 3, 0), ([("F", "SUM"), ("C", 1, 0, 1, 1), Y(")")], 3, 3),
-        ([("T", "Q1", "Q3"), A1], 1, 0), ([("T", "Sheet1", "Sheet3"), A1], 1, 0),
+        ([("F", "SUM"), ("C", 0, 0, 1, 1), Y(")")], 0, 1), ([("C", 0, 16382, 0, 16383)], 0, 1), ([("C", 0, 0, 0, 1)], 0, -1),
+        ([("W", 1, 0, 0, 1048575)], 1, 0), ([("W", 0, 1048574, 0, 1048574)], 1, 0), ([("S", 0, "Sheet2"), ("C", 0, 0, 0, 1)], 0, 2),
+        ([("T", "Q1", "Q3"), A1], 1, 0), ([("T", "Sheet1", "Sheet3"), A1], 1, 0), ([("T", "A", "B"), ("C", 0, 0, 0, 1)], 0, 1),
+        # defined names with a non-ASCII letter before a cell-like tail
+        ([("N", "売上Q1"), Y("+"), A1], 1, 1), ([("N", "Année2024"), Y("*"), A1], 1, 1),
+        # outside the grammar: the text of a range tokenised as names / numbers
+        ([("N", "A"), Y(":"), ("N", "B")], 0, 1), ([("M", "1", None, None), Y(":"), ("M", "3", None, None)], 1, 0),
+        ([A1, Y(":"), ("S", 0, "Sheet3"), A1], 1, 0), ([("N", "A"), Y(":"), ("F", "IF"), A1, Y(")")], 0, 1),
         # outside the grammar (names that are cell names): correspondence only
         ([("N", "tax1")], 1, 0), ([("N", "Tbl1"), ("B", "[Col]")], 1, 0),
     ]
@@ -619,6 +614,8 @@ def run_fixed_sheets(ctx):
         ("block", [grp((1, 1), (3, 3), 0)], ()),
         ("block-master-in-the-middle", [grp((1, 1), (3, 3), 0, master=(2, 2))], ()),
         ("si-swapped", [grp((1, 1), (4, 1), 1), grp((6, 1), (6, 5), 0)], ()),
+        ("si-descending-side-by-side", [grp((1, 2), (4, 2), 1), grp((1, 3), (4, 3), 0)], ()),
+        ("si-descending-three-columns", [grp((1, 1), (5, 1), 7), grp((1, 2), (5, 2), 3), grp((1, 3), (5, 3), 0)], ()),
         ("si-1-0-2", [grp((1, 1), (4, 1), 1), grp((6, 1), (6, 5), 0), grp((8, 1), (10, 3), 2)], ()),
         ("si-gap", [grp((1, 1), (4, 1), 3), grp((6, 1), (6, 5), 9)], ()),
         ("si-huge", [grp((1, 1), (4, 1), 10 ** 12), grp((6, 1), (6, 5), 0)], ()),
